@@ -397,7 +397,8 @@ def gen_nonlinear(rng, kind):
         return {"cls": "Quadrupole", "kw": dict(length=L, k1=k1, misalignment=rng.choice(MIS), tilt=rng.choice(TILT),
                                                 num_steps=rng.choice([1, 2, 3, 5]), tracking_method="bmadx")}
     if kind == "DipoleX":
-        angle = pick(rng, [0.01, -0.02, 0.1, -0.3, 0.5], -0.5, 0.5)
+        # bends of 90 degrees and more take the other exit-position branch (c2) of the Bmad-X body: included on purpose
+        angle = pick(rng, [0.01, -0.02, 0.1, -0.3, 0.5, 1.7, -1.9, 2.5], -0.5, 0.5)
         if angle == 0.0:
             angle = 0.05        # angle = 0 is F8 (C09): NaN, out of scope here
         return {"cls": "Dipole", "kw": dict(length=pick(rng, [0.25, 0.5, 1.0], 0.1, 1.5), angle=angle,
